@@ -569,3 +569,6 @@ M('C07', 'revert F27: dot reduces with numpy.sum', 'function.py', "        retur
 M('C07', 'contraction helper forgets the boolean case', 'function.py', "    return numpy.greater(summed, 0) if arg.dtype == bool else summed", "    return summed", rule='R07.11')
 M('C07', 'revert F28: abs of booleans goes down the sign chain', 'function.py', "        arg = Array.cast(arg)\n        if arg.dtype == bool:\n            return arg\n        return _Wrapper(evaluable.abs", "        arg = Array.cast(arg)\n        return _Wrapper(evaluable.abs", rule='R07.11')
 M('C07', 'benign: einsum tests the boolean kind itself', 'function.py', "        return _contract(util.product(factors), range(len(axes)-len(out)))", "        prod = util.product(factors)\n        summed = numpy.sum(prod, range(len(axes)-len(out)))\n        return numpy.greater(summed, 0) if prod.dtype == bool else summed", expect='silent')
+M('C07', 'revert F29: reshape factors the lengths of an empty array', 'function.py', "        if not arg.size:\n            # an empty array has no entries to rearrange\n            return zeros(tuple(newshape), arg.dtype)\n", "", rule='R07.12')
+M('C07', 'reshape infers -1 without excluding a zero product', 'function.py', "            if not known:\n                raise ValueError(f'cannot reshape array of size {arg.size} into shape {newshape}')\n", "", rule='R07.12')
+M('C07', 'benign: reshape tests the size with == 0', 'function.py', "        if not arg.size:\n            # an empty array has no entries to rearrange", "        if arg.size == 0:\n            # an empty array has no entries to rearrange", expect='silent')
